@@ -174,21 +174,12 @@ func (fb *fileBuilder) printFile(ff protoreflect.FileDescriptor) ([]byte, error)
 		}
 		fb.addGap()
 	}
-	// This could be manual iteration, but seemed more future-proof and
-	// quicker to write.
-	refl := ff.Options().ProtoReflect()
-	fields := refl.Descriptor().Fields()
-	for i := 0; i < fields.Len(); i++ {
-		field := fields.Get(i)
-		if !refl.Has(field) {
-			continue
-		}
-		switch field.Kind() {
-		case protoreflect.BoolKind:
-			fb.p("option ", field.Name(), " = ", refl.Get(field).Interface(), ";")
-		case protoreflect.StringKind:
-			fb.p("option ", field.Name(), " = ", optionreflect.QuoteString(refl.Get(field).String()), ";")
-		}
+	fileOptions, err := fb.out.extensions.OptionsFor(ff)
+	if err != nil {
+		return nil, err
+	}
+	for _, opt := range fileOptions {
+		fb.printOption(opt)
 	}
 	fb.addGap()
 
